@@ -17,7 +17,7 @@ None == <<0, 0>>
 
 Fresh == [lastCommit |-> -1, commitFailed |-> FALSE, lastRound |-> -1, obs |-> <<>>,
           wmBegin |-> None, wmDone |-> None, cancelled |-> FALSE, down |-> FALSE,
-          deadProps |-> {}, rejected |-> {}, okSync |-> -1, mainStarts |-> 0, workerStarts |-> 0, garbage |-> FALSE]
+          deadProps |-> {}, rejected |-> {}, consumerPanics |-> 0, okSync |-> -1, mainStarts |-> 0, workerStarts |-> 0, garbage |-> FALSE]
 
 Init == l = 1 /\ s = Fresh
 
@@ -42,6 +42,7 @@ Step(e) ==
     [] e.ev = "api.update.return" -> IF e.ok /\ e.b > s.okSync THEN [s EXCEPT !.okSync = e.b] ELSE s
     [] e.ev = "main.run.start" -> [s EXCEPT !.mainStarts = @ + 1]
     [] e.ev = "worker.run.start" -> [s EXCEPT !.workerStarts = @ + 1]
+    [] e.ev = "consumer.panic" -> [s EXCEPT !.consumerPanics = @ + 1]
     [] OTHER -> s
 
 LibraryEvent(e) == e.ev \in {"cb.commit", "cb.round", "send", "spi.enter", "main.election.begin", "main.sync.begin",
@@ -65,6 +66,8 @@ Judge(e) ==
   /\ Chk(e.ev = "spi.done_seen" => (s.cancelled \/ Older(<<e.h, e.v>>, s.wmBegin)), "c15_current_or_future_context_cancelled")
   /\ Chk(e.ev = "quiesce" => \A i \in DOMAIN e.blocked : ~Older(<<e.blocked[i].h, e.blocked[i].v>>, s.wmDone), "c15_blocked_call_not_released")
   /\ Chk((e.ev = "send" /\ e.kind \in {"PP", "NV"}) => e.blk \notin s.deadProps, "c15_proposal_broadcast_after_cancelled_call")
+  \* C15: an election trigger (the node is told to leave the view) is taken by the main loop - otherwise the contexts of that view are never cancelled
+  /\ Chk(e.ev = "driver.election.blocked" => s.cancelled, "c15_election_trigger_not_taken_by_the_main_loop")
   \* ---------------- C04 (the consumer's verdict is a function of the block: rejected once, rejected always; the peers are played
   \* by the driver and vote for anything, so only this node's validation stands between a rejected proposal and its commit)
   /\ Chk(e.ev = "cb.commit" => e.blk \notin s.rejected, "c04_committed_a_block_its_consumer_rejected")
@@ -77,7 +80,8 @@ Judge(e) ==
   /\ Chk(e.ev = "api.after_cancel" => (e.update_err /\ e.ms <= 1500), "c16_api_call_with_cancelled_context_blocked")
   \* ---------------- C12
   /\ Chk(e.ev = "main.run.start" => s.mainStarts = 0, "c12_main_loop_restarted_after_panic")
-  /\ Chk(e.ev = "worker.run.start" => s.workerStarts = 0, "c12_worker_loop_restarted_after_panic")
+  \* (a panic of the consumer's own callback is not the library's: each one accounts for one restart)
+  /\ Chk(e.ev = "worker.run.start" => s.workerStarts <= s.consumerPanics, "c12_worker_loop_restarted_after_panic")
   /\ Chk((e.ev = "probe" /\ s.garbage) => e.progressed, "c12_node_no_longer_commits")
   /\ Chk((e.ev = "probe" /\ ~s.garbage) => e.progressed, "drift_probe_no_progress")
   /\ Chk(e.ev = "api.msg.blocked" => s.cancelled, "c12_handle_consensus_message_blocked")
